@@ -20,7 +20,7 @@ var TLDs = []string{"com", "org"}
 
 // Locs are the location ids used for tagging (the third needs an escape: it
 // holds a comma).
-var Locs = []string{"l1", "l2", "\x00,", "\x00:", "\x00\\"}
+var Locs = []string{"l1", "l2", "\x00,", "\x00:", "\x00\\", "La"}
 
 // ClientPool are the resolver / client addresses used by world-based checks.
 var ClientPool = []string{"10.0.0.1", "10.0.0.2", "10.0.1.1", "192.0.2.7", "2001:db8::1", "2001:db8::2", "2001:db8:1::1"}
@@ -123,12 +123,14 @@ func (b *worldBuilder) loc(tag string, pTagged int) string {
 	if rapid.IntRange(0, 99).Draw(b.t, tag+"-tagged") >= pTagged {
 		return ""
 	}
-	i := rapid.IntRange(0, 9).Draw(b.t, tag)
+	i := rapid.IntRange(0, 10).Draw(b.t, tag)
 	switch {
 	case i < 5:
 		return Locs[0]
 	case i < 8:
 		return Locs[1]
+	case i == 10:
+		return Locs[5] // upper-case letter in the id: ids are opaque bytes, never case-folded
 	default:
 		return Locs[2+(i-8)]
 	}
@@ -309,6 +311,10 @@ func (b *worldBuilder) buildPool() {
 		addn(d)
 		addn(b.label("pdl") + "." + d)
 	}
+	if len(b.apex) > 0 && rapid.IntRange(0, 3).Draw(b.t, "pool-deep") == 0 {
+		// names of 10 and more labels (deeper than any fixed-size candidate list)
+		addn("l1.l2.l3.l4.l5.l6.l7.l8.l9.l10." + b.apex[0])
+	}
 	addn("a.net")
 	addn("b.a.net")
 	for k := range b.reg {
@@ -348,6 +354,8 @@ var auxSamples = []struct {
 	{99, []byte("\x0bv=spf1 -all")},
 	{65280, []byte{0, 1, 2, ',', ':', '\\', 0xff, ' ', '"'}},
 	{65280, nil},
+	{65280, []byte("abc ")},
+	{65280, []byte(" x  ")},
 	{44, []byte{1, 1, 0xde, 0xad}},
 }
 
@@ -378,6 +386,9 @@ func (b *worldBuilder) records() {
 			txt := make([]byte, tl)
 			for j := range txt {
 				txt[j] = txtAlphabet[(j*7+tl)%len(txtAlphabet)]
+			}
+			if rapid.IntRange(0, 3).Draw(b.t, "txtblanks") == 0 {
+				txt = append(txt, ' ', ' ') // trailing blanks are data too
 			}
 			l.Text = txt
 		case '@':
@@ -522,7 +533,7 @@ func (b *worldBuilder) maps() {
 					cidr = "10.0.0.0/16"
 				}
 			}
-			put(m, cidr, Locs[rapid.IntRange(0, 2).Draw(b.t, "subloc")])
+			put(m, cidr, rapid.SampledFrom([]string{Locs[0], Locs[0], Locs[1], Locs[1], Locs[2], Locs[5]}).Draw(b.t, "subloc"))
 		}
 		if rapid.IntRange(0, 2).Draw(b.t, "defaults") == 0 {
 			lo := Locs[rapid.IntRange(0, 1).Draw(b.t, "defloc")]
@@ -566,6 +577,7 @@ func QueryNames(w *World) []string {
 		}
 		if r.Type == 2 {
 			set["c.www."+r.Owner] = true
+			set["d1.d2.d3.d4.d5.d6.d7.d8.d9.d10.d11."+r.Owner] = true
 		}
 	}
 	out := make([]string, 0, len(set))
